@@ -11,7 +11,7 @@ use super::{
     TSetIdentifier, TStructIdentifier, TType, ThriftException, ZERO_COPY_THRESHOLD,
     error::ProtocolExceptionKind,
     new_protocol_exception,
-    rw_ext::{ReadExt, WriteExt},
+    rw_ext::{IOError, ReadExt, WriteExt},
 };
 
 static VERSION_1: u32 = 0x80010000;
@@ -645,6 +645,7 @@ impl TInputProtocol for TBinaryProtocol<&mut Bytes> {
     fn read_bytes(&mut self) -> Result<Bytes, ThriftException> {
         let len = self.trans.read_i32()?;
         // split and freeze it
+        crate::assert_remaining!(len as usize <= self.trans.len());
         Ok(self.trans.split_to(len as usize))
     }
 
@@ -655,6 +656,7 @@ impl TInputProtocol for TBinaryProtocol<&mut Bytes> {
                 std::slice::from_raw_parts(ptr, len)
             }))
         } else {
+            crate::assert_remaining!(len <= self.trans.len());
             Ok(self.trans.split_to(len))
         }
     }
@@ -700,6 +702,7 @@ impl TInputProtocol for TBinaryProtocol<&mut Bytes> {
     #[inline]
     fn read_faststr(&mut self) -> Result<FastStr, ThriftException> {
         let len = self.trans.read_i32()? as usize;
+        crate::assert_remaining!(len <= self.trans.len());
         let bytes = self.trans.split_to(len);
         unsafe { Ok(FastStr::from_bytes_unchecked(bytes)) }
     }
@@ -749,6 +752,7 @@ impl TInputProtocol for TBinaryProtocol<&mut Bytes> {
     #[inline]
     fn read_bytes_vec(&mut self) -> Result<Vec<u8>, ThriftException> {
         let len = self.trans.read_i32()? as usize;
+        crate::assert_remaining!(len <= self.trans.len());
         Ok(self.trans.split_to(len).into())
     }
 
